@@ -6,9 +6,10 @@
    * `findWrappingTypes`: direct invariant of the breadth-first queue for what an answer means
      (`findWrappingTypes_spec`), and a simulation by `wrapSearch` of PM/Fill.lean for the fuel
      (`findWrappingTypes_complete`: `none` means that no wrapper chain exists at all).
-   * `createAndFill`: more fuel never changes an answer (`createAndFill_fuel_mono`), and running out
-     of fuel means that a type is needed inside itself (`createAndFill_none_cycle`), where the code
-     recurses without bound. -/
+   * `createAndFill`: more fuel never changes an answer (`createAndFill_fuel_mono`).  NOT proved here:
+     that `none` at the fuel `#types + 1` is `none` at every fuel (a type needed inside itself, where
+     the code recurses without bound) — the sibling definition of PM/CreateFill.lean has that proof
+     (Proofs/CreateFill.lean `createAndFill_raises_aux`). -/
 import PM.FillOrder
 import Proofs.Fill
 import Proofs.Wrap
@@ -121,6 +122,45 @@ theorem mapM_createAndFill_types (S : Schema) (fuel : Nat) : ∀ (tys : List Typ
         subst h
         simp only [Schema.types, List.map_cons, List.cons.injEq]
         exact ⟨createAndFill_ty S fuel t n hn, mapM_createAndFill_types S fuel ts r hr⟩
+
+theorem mapM_option_mono {α β : Type} (f g : α → Option β) (hfg : ∀ a b, f a = some b → g a = some b) :
+    ∀ (l : List α) (r : List β), l.mapM f = some r → l.mapM g = some r
+  | [], r, h => by simpa using h
+  | a :: l, r, h => by
+    simp only [List.mapM_cons, Option.pure_def, Option.bind_eq_bind] at h ⊢
+    cases hfa : f a with
+    | none => simp [hfa] at h
+    | some b =>
+      cases hl : l.mapM f with
+      | none => simp [hfa, hl] at h
+      | some bs =>
+        simp only [hfa, hl, Option.bind_some] at h
+        rw [hfg a b hfa, mapM_option_mono f g hfg l bs hl]
+        simpa using h
+
+/-- **more fuel never changes an answer of `create_and_fill`** -/
+theorem createAndFill_fuel_succ (S : Schema) : ∀ (fuel : Nat) (ty : TypeId) (n : Node),
+    createAndFill S fuel ty = some n → createAndFill S (fuel + 1) ty = some n
+  | 0, _, _, h => by simp [createAndFill] at h
+  | fuel + 1, ty, n, h => by
+    rw [createAndFill.eq_2] at h ⊢
+    split at h
+    · simp at h
+    · rename_i attrs ha
+      split at h
+      · simp at h
+      · rename_i tys htys
+        split at h
+        · simp at h
+        · rename_i kids hk
+          rw [mapM_option_mono _ _ (createAndFill_fuel_succ S fuel) tys kids hk]
+          exact h
+
+theorem createAndFill_fuel_mono (S : Schema) (fuel k : Nat) (ty : TypeId) (n : Node)
+    (h : createAndFill S fuel ty = some n) : createAndFill S (fuel + k) ty = some n := by
+  induction k with
+  | zero => exact h
+  | succ k ih => exact createAndFill_fuel_succ S _ ty n ih
 
 /-- the nodes of a filling have the filling's types -/
 theorem fillBeforeNodes_types (S : Schema) (d : Dfa) (q : Nat) (after : List TypeId) (toEnd : Bool)
